@@ -146,17 +146,33 @@ def make_replay(prop, run, h, workdir):
     tdir = BUILD / ("%s-%s" % (prop, run.get("cfg", "nostd")))
     log = workdir / ("replay-%s.log" % harness_short(h))
     cmd = kani_cmd(run, [h], tdir, ["--exact", "-Z", "concrete-playback", "--concrete-playback=print"])
-    rc, wall = sh(cmd, log, timeout=run.get("timeout", 3600), mem_gb=run.get("mem_gb", 12), stack_unlimited=True)
+    # one process at a time here and concrete playback disables formula slicing: give it more memory than a parallel run gets
+    rc, wall = sh(cmd, log, timeout=run.get("timeout", 3600), mem_gb=max(run.get("mem_gb", 12), 30), stack_unlimited=True)
     txt = open(log, errors="replace").read()
     tests = PB_RE.findall(txt)
     if not tests:
+        # fall back to the canned native witness of the same name (src/witness.rs), if there is one
+        hs = harness_short(h)
+        wsrc = (HARNESS / "src" / "witness.rs").read_text() if (HARNESS / "src" / "witness.rs").exists() else ""
+        if ("pub fn witness_%s()" % hs) in wsrc:
+            REPLAYS.mkdir(exist_ok=True)
+            path = REPLAYS / ("%s-%s-witness.rs" % (prop, hs))
+            feats_for_replay = features_of(run) + (["pb_alloc"] if run.get("stubbing") else [])
+            path.write_text("// replay for property %s, harness %s (canned native witness: the solver's values could not be extracted)\n// features: %s\n// run: tools/check.py %s --replay %s\n"
+                            "#[test]\nfn kani_concrete_playback_witness_%s() { crate::witness::witness_%s() }\n" % (prop, h, ",".join(feats_for_replay), prop, path, hs, hs))
+            ok, detail = run_replay(path, workdir)
+            return path, ok, "canned witness: " + str(detail)
         return None, None, "no concrete playback produced (see %s)" % log
     REPLAYS.mkdir(exist_ok=True)
     body = []
     names = []
+    # tests labelled with a cover check are witnesses of satisfied covers, not counterexamples -- unless Kani merged the
+    # counterexample into one of them (it prints one test per distinct value vector): then they are all there is, and
+    # the native run decides
+    only_cover = all("Check for `cover`" in code for _, code in tests)
     for full, code in tests:
-        if "Check for `cover`" in code:
-            continue  # witnesses of satisfied covers, not counterexamples
+        if "Check for `cover`" in code and not only_cover:
+            continue
         mod = "::".join(full.split("::")[:-1])
         fn = full.split("::")[-1]
         code = re.sub(r"concrete_playback_run\(concrete_vals, %s\)" % re.escape(fn), "concrete_playback_run(concrete_vals, crate::%s::%s)" % (mod, fn), code)
@@ -168,7 +184,8 @@ def make_replay(prop, run, h, workdir):
     path = REPLAYS / ("%s-%s-%s.rs" % (prop, harness_short(h), hsh))
     if not body:
         return None, None, "no counterexample test produced (see %s)" % log
-    header = "// replay for property %s, harness %s\n// features: %s\n// run: tools/check.py %s --replay %s\n#[allow(unused_imports)]\nuse alloc::{vec, vec::Vec};\n" % (prop, h, ",".join(features_of(run)), prop, path)
+    feats_for_replay = features_of(run) + (["pb_alloc"] if run.get("stubbing") else [])
+    header = "// replay for property %s, harness %s\n// features: %s\n// run: tools/check.py %s --replay %s\n#[allow(unused_imports)]\nuse alloc::{vec, vec::Vec};\n" % (prop, h, ",".join(feats_for_replay), prop, path)
     path.write_text(header + "\n".join(body))
     ok, detail = run_replay(path, workdir)
     return path, ok, detail
@@ -368,9 +385,9 @@ POSTS = {"c17": post_c17}
 
 def write_evidence(prop, tier, seed, cfgp, all_res, metas, wall, nviol, problems, twins_ok, known_hits=(), extra=None):
     EVID.mkdir(exist_ok=True)
-    obligations = sum(r["props"].get("total_properties", 0) for r in all_res)
-    discharged = sum(r["props"].get("passed", 0) + r["props"].get("satisfied", 0) for r in all_res)
-    unreachable = sum(r["props"].get("unreachable", 0) for r in all_res)
+    obligations = sum((r["props"].get("total_properties") or 0) for r in all_res)
+    discharged = sum((r["props"].get("passed") or 0) + (r["props"].get("satisfied") or 0) for r in all_res)
+    unreachable = sum((r["props"].get("unreachable") or 0) for r in all_res)
     nontrivial = [r for r in all_res if r["status"] == "Success" and not r["unsat_covers"]]
     fns = sorted({f for r in all_res for f in r["repo_functions"]})
     solver_s = sum((r["stats"] or {}).get("runtime_decision_procedure_s", 0) or 0 for r in all_res)
@@ -412,4 +429,12 @@ def write_evidence(prop, tier, seed, cfgp, all_res, metas, wall, nviol, problems
 
 
 if __name__ == "__main__":
-    main()
+    try:
+        main()
+    except SystemExit:
+        raise
+    except BaseException as e:  # a crash of the driver is never a verdict
+        import traceback
+        traceback.print_exc()
+        print("INCONCLUSIVE: driver error: %r" % (e,))
+        sys.exit(3)
